@@ -4,7 +4,7 @@ from tools import vlib
 from tools.harness import dump, observe, corr, views
 
 PROP = "C16"
-GEN = []
+GEN = ["gen_infix"]
 
 # ---------------------------------------------------------------------------------------------------------------
 # tables: a table spec is a JSON-able dict
@@ -79,7 +79,7 @@ Import ListNotations.
 Definition A_ (n : nat) (asl sk : bool) (wh : list char) (cp mi cu hm : bool) (sl : nat) : attrs :=
   {| nid := n; rsname := None; modalr := true; aslist := asl; skipws := sk; white := wh; callpre := cp; mayidx := mi;
      custom := cu; hasmsg := hm; acts := []; calltry := false; slen := sl |}.
-Definition ids_ (c : nat) : nat * nat := (1000000 + c, 0).
+Definition ids_ (c : nat) : nat * nat := (5000 + c, 0).
 """
 
 
@@ -171,7 +171,7 @@ def sx_text(sx):
 
 def match_structure(elab, dumped, m_fwd=None):
     """compare the elaborated grammar with the dumped one; node identities / len(str) of the nodes infix_notation creates
-    are unified (elab ids >= 1000000 are symbolic): returns None or a description of the first difference"""
+    are unified (elab ids >= 5000 are symbolic): returns None or a description of the first difference"""
     code2id, id2code = {}, {}
 
     def go(a, b, path):
@@ -179,7 +179,7 @@ def match_structure(elab, dumped, m_fwd=None):
             return None if a == b else "%s: elab %r != real %r" % (path, a, b)
         if a and a[0] == "A" and b and b[0] == "A":
             ea, eb = list(a), list(b)
-            if int(ea[1]) >= 1000000:
+            if int(ea[1]) >= 5000:
                 c, real = ea[1], (eb[1], eb[13])
                 if code2id.setdefault(c, real) != real or id2code.setdefault(real[0], c) != c:
                     return "%s: sharing differs (code %s bound to %r, real %r)" % (path, c, code2id[c], real)
@@ -208,3 +208,1217 @@ def elab_check(reals, which="infix_elab"):
     exprs = ["sx_grammar (%s)" % coq_table_term(r, which) for r in reals]
     vals = vlib.coq_eval_terms("c16_elab", COQ_PREAMBLE, exprs, timeout=900)
     return [coqval_to_sx(v) for v in vals]
+
+
+def elab_both(reals):
+    """ONE coqc call: (infix_elab sx list, infix_ref sx list) for the given Reals"""
+    exprs = ["sx_grammar (%s)" % coq_table_term(r, "infix_elab") for r in reals]
+    exprs += ["sx_grammar (%s)" % coq_table_term(r, "infix_ref") for r in reals]
+    import os
+    vals = vlib.coq_eval_terms("c16_elab_%d" % os.getpid(), COQ_PREAMBLE, exprs, timeout=900)
+    sxs = [coqval_to_sx(v) for v in vals]
+    return sxs[:len(reals)], sxs[len(reals):]
+
+
+# ---------------------------------------------------------------------------------------------------------------
+# the property's oracle: a tokenizer (maximal munch) + a precedence parser over TOKENS for the stratified grammar
+# that infix_notation documents, + an evaluator giving every operator a fixed non-commutative, non-associative meaning
+# ---------------------------------------------------------------------------------------------------------------
+RULE = ("hand-written operator tables (4-function arithmetic with unary minus and right-associative **, boolean not/and/or, "
+        "ternary, overlapping spellings) + seeded random tables (1-6 levels, arities 1-3, both associativities, literal / keyword "
+        "/ MatchFirst operators, overlapping spellings on different levels, at most one juxtaposition level, suppressed or kept "
+        "parentheses, bases int/var/intvar) x well-formed strings generated FROM the table's stratified grammar (random "
+        "whitespace, redundant parentheses) and ill-formed mutations x memoization {off, packrat 128, packrat 1}; per table: "
+        "(a) Coq `infix_elab` == dump of the real object graph (nodes, flags, sharing); per input: (b) extracted model on the "
+        "dumped graph vs implementation (parse_all), Coq reference PEG reading of the elaborated grammar and (b') of `infix_ref` "
+        "(same grammar without look-aheads) vs implementation; (c) implementation vs an independent tokenizing precedence "
+        "parser + evaluator (tree shape, value, acceptance, identical outcome in every memoization mode); "
+        "non-trivial = expression using >= 2 levels or >= 3 operators")
+TRUSTED = [
+    "extraction: ExtrOcamlBasic only; ocaml/driver.ml (S-expression reader/printer, no logic)",
+    "tools/harness/dump.py reads the attributes of the real streamlined objects; the user-supplied pieces (base, operators, "
+    "parentheses) are passed to the Coq elaboration as dumped, the nodes infix_notation creates are compared field by field",
+    "the Python oracle of this plugin (maximal-munch tokenizer over the table's spellings + recursive precedence parser over "
+    "tokens for the documented stratified grammar) is the executable statement of 'honours precedence, associativity, arity'",
+    "tables outside the generator's well-formedness rule (a spelling used twice in non-prefix roles, juxtaposition together "
+    "with a prefix operator that is also an infix operator) are token-level ambiguous and are not generated",
+]
+MODES = [("none",), ("packrat", 128), ("packrat", 1)]
+WS = " \t\n\r"
+IDENT = set("abcdefghijklmnopqrstuvwxyzABCDEFGHIJKLMNOPQRSTUVWXYZ0123456789_$")
+VARS = "xyz"
+
+
+def S(levels, base="int", lpar=("sup", "("), rpar=("sup", ")")):
+    return {"base": base, "levels": [list(l) for l in levels], "lpar": list(lpar), "rpar": list(rpar)}
+
+
+def op_spellings(op):
+    return list(op[1:])
+
+
+class Table:
+    """token-level view of a table spec"""
+
+    def __init__(self, spec):
+        self.spec = spec
+        self.base = spec["base"]
+        self.lp, self.rp = spec["lpar"][1], spec["rpar"][1]
+        self.lp_lit, self.rp_lit = spec["lpar"][0] == "lit", spec["rpar"][0] == "lit"
+        self.levels = []            # (kind, [set(spellings) per operator position])
+        self.lits, self.kws = set(), set()
+        self.roles = {}             # spelling -> list of (role, level)
+        for k, lv in enumerate(spec["levels"], 1):
+            kind = lv[0]
+            sets = []
+            for j, op in enumerate(lv[1:]):
+                sp = op_spellings(op)
+                sets.append(set(sp))
+                (self.kws if op[0] == "kw" else self.lits).update(sp)
+                role = {"postfix": "postfix", "prefix": "prefix", "binl": "binary", "binr": "binary",
+                        "ternl": "ternary%d" % (j + 1), "ternr": "ternary%d" % (j + 1)}[kind]
+                for s in sp:
+                    self.roles.setdefault(s, []).append((role, k))
+            self.levels.append((kind, sets))
+        self.syms = sorted(self.lits | {self.lp, self.rp}, key=lambda s: (-len(s), s))
+        self.kwl = sorted(self.kws, key=lambda s: (-len(s), s))
+        self.n = len(self.levels)
+
+    # ---- tokens
+    def scan(self, s):
+        """maximal munch: ([(token, start, end)], complete) ; complete = False on a lexical error (tokens up to it)"""
+        out, i, n = [], 0, len(s)
+        while i < n:
+            c = s[i]
+            if c in WS:
+                i += 1
+                continue
+            if c.isdigit() and c.isascii():
+                j = i
+                while j < n and s[j].isdigit() and s[j].isascii():
+                    j += 1
+                out.append((s[i:j], i, j))
+                i = j
+                continue
+            for kw in self.kwl:
+                if s.startswith(kw, i) and (i == 0 or s[i - 1] not in IDENT) and (i + len(kw) >= n or s[i + len(kw)] not in IDENT):
+                    out.append((kw, i, i + len(kw)))
+                    i += len(kw)
+                    break
+            else:
+                if c in VARS:
+                    out.append((c, i, i + 1))
+                    i += 1
+                    continue
+                for sym in self.syms:
+                    if s.startswith(sym, i):
+                        out.append((sym, i, i + len(sym)))
+                        i += len(sym)
+                        break
+                else:
+                    return out, False
+        return out, True
+
+    def tokenize(self, s):
+        """maximal munch; None on a lexical error"""
+        toks, ok = self.scan(s)
+        return [t for t, _, _ in toks] if ok else None
+
+    def is_base(self, t):
+        if t is None:
+            return False
+        if t.isdigit():
+            return self.base in ("int", "intvar")
+        if len(t) == 1 and t in VARS:
+            return self.base in ("var", "intvar")
+        return False
+
+    def prefix_levels(self, t):
+        return [k for (r, k) in self.roles.get(t, []) if r == "prefix"]
+
+    # ---- well-formedness of the table itself (token-level unambiguous, deterministic for the oracle)
+    def problems(self):
+        out = []
+        nonpre = {}
+        pre = {}
+        for s, rl in self.roles.items():
+            for r, k in rl:
+                d = pre if r == "prefix" else nonpre
+                d.setdefault(s, []).append(k)
+        for s, ks in list(nonpre.items()) + list(pre.items()):
+            if len(ks) > 1:
+                out.append("spelling %r used twice in the same kind of position" % s)
+        jux = [k for k, (kind, _) in enumerate(self.levels, 1) if kind in ("juxl", "juxr")]
+        if len(jux) > 1:
+            out.append("two juxtaposition levels")
+        if jux and set(pre) & set(nonpre):
+            out.append("juxtaposition with a spelling that is both prefix and infix")
+        if jux and self.base == "intvar":
+            out.append("juxtaposition with base intvar")
+        for s in list(self.roles) + [self.lp, self.rp]:
+            if self.is_base(s) or s == "" or any(c in WS for c in s):
+                out.append("spelling %r collides with operands/whitespace" % s)
+        if self.lp == self.rp or self.lp in self.roles or self.rp in self.roles:
+            out.append("parentheses collide")
+        for s in self.kws:
+            if not all(c in IDENT for c in s) or s in self.lits:
+                out.append("keyword %r" % s)
+        for s in self.lits | {self.lp, self.rp}:
+            if any(c in IDENT for c in s):
+                out.append("literal %r contains identifier characters" % s)
+        return out
+
+    def overlaps(self):
+        """[(short, long)] : short a proper prefix of long, both spellings of the table (operators or parentheses)"""
+        sp = sorted(set(self.roles) | {self.lp, self.rp})
+        out = [(a, b) for a in sp for b in sp if a != b and b.startswith(a)]
+        if self.base in ("var", "intvar"):       # an operand that is a proper prefix of a keyword operator
+            out += [(kw[0], kw) for kw in sorted(self.kws) if kw[0] in VARS]
+        return out
+
+
+class Reject(Exception):
+    pass
+
+
+def oracle_parse(T, toks):
+    """tokens -> (tree, info) for the stratified grammar; raises Reject.  tree: str | list (pyparsing's as_list shape)"""
+    pos = [0]
+    info = {"ops": 0, "levels": set()}
+    ntok = len(toks)
+
+    def peek():
+        return toks[pos[0]] if pos[0] < ntok else None
+
+    def take():
+        t = toks[pos[0]]
+        pos[0] += 1
+        return t
+
+    def expect(opset):
+        if peek() in opset:
+            return take()
+        raise Reject("expected one of %s at token %d" % (sorted(opset), pos[0]))
+
+    def starts(k):
+        t = peek()
+        return t is not None and (T.is_base(t) or t == T.lp or any(j <= k for j in T.prefix_levels(t)))
+
+    def used(k, nops=1):
+        info["ops"] += nops
+        info["levels"].add(k)
+
+    def atom():
+        t = peek()
+        if T.is_base(t):
+            return take()
+        if t == T.lp:
+            take()
+            x = level(T.n)
+            expect({T.rp})
+            if not T.lp_lit and not T.rp_lit:
+                return x
+            return ([T.lp] if T.lp_lit else []) + [x] + ([T.rp] if T.rp_lit else [])
+        raise Reject("operand expected at token %d" % pos[0])
+
+    def level(k):
+        if k == 0:
+            return atom()
+        kind, sets = T.levels[k - 1]
+        if kind == "prefix":
+            if peek() in sets[0]:
+                op = take()
+                used(k)
+                return [op, level(k)]
+            return level(k - 1)
+        x = level(k - 1)
+        if kind == "postfix":
+            if peek() in sets[0]:
+                g = [x]
+                while peek() in sets[0]:
+                    g.append(take())
+                    used(k)
+                return g
+        elif kind == "binl":
+            if peek() in sets[0]:
+                g = [x]
+                while peek() in sets[0]:
+                    g.append(take())
+                    g.append(level(k - 1))
+                    used(k)
+                return g
+        elif kind == "binr":
+            if peek() in sets[0]:
+                op = take()
+                used(k)
+                return [x, op, level(k)]
+        elif kind == "juxl":
+            if starts(k - 1):
+                g = [x]
+                while starts(k - 1):
+                    g.append(level(k - 1))
+                    used(k)
+                return g
+        elif kind == "juxr":
+            if starts(k):
+                used(k)
+                return [x, level(k)]
+        elif kind == "ternl":
+            if peek() in sets[0]:
+                g = [x]
+                while peek() in sets[0]:
+                    g.append(take())
+                    g.append(level(k - 1))
+                    g.append(expect(sets[1]))
+                    g.append(level(k - 1))
+                    used(k)
+                return g
+        elif kind == "ternr":
+            if peek() in sets[0]:
+                o1 = take()
+                a = level(k)
+                o2 = expect(sets[1])
+                used(k)
+                return [x, o1, a, o2, level(k)]
+        return x
+
+    tree = level(T.n)
+    if pos[0] != ntok:
+        raise Reject("trailing tokens from %d" % pos[0])
+    return tree, info
+
+
+def oracle(T, s):
+    """('ok', tree, info) | ('rej', why)"""
+    toks = T.tokenize(s)
+    if toks is None:
+        return ("rej", "lexical error")
+    if not toks:
+        return ("rej", "empty")
+    try:
+        tree, info = oracle_parse(T, toks)
+    except Reject as e:
+        return ("rej", str(e))
+    except RecursionError:
+        return ("rej", "too deep")
+    return ("ok", tree, info)
+
+
+PRIME = 1000003
+
+
+def _h(s):
+    import hashlib
+    return int(hashlib.md5(s.encode()).hexdigest()[:8], 16) % PRIME
+
+
+def evaluate(T, t):
+    """fixed arbitrary meaning for every operator (non-commutative, non-associative), on a tree in pyparsing's shape;
+    None when the tree does not have the shape of any form of the table"""
+    try:
+        return _eval(T, t)
+    except (ValueError, IndexError, TypeError, KeyError):
+        return None
+
+
+def _bin(op, a, b):
+    return (_h("b1" + op) * a + _h("b2" + op) * b * b + _h("b3" + op)) % PRIME
+
+
+def _eval(T, t):
+    if isinstance(t, str):
+        return int(t) % PRIME if t.isdigit() else _h("var" + t)
+    if not isinstance(t, list) or not t:
+        raise ValueError
+    if (T.lp_lit or T.rp_lit) and ((T.lp_lit and t[0] == T.lp) or (T.rp_lit and t[-1] == T.rp)):
+        inner = t[1 if T.lp_lit else 0: len(t) - 1 if T.rp_lit else len(t)]
+        if len(inner) != 1 or (T.lp_lit and t[0] != T.lp) or (T.rp_lit and t[-1] != T.rp):
+            raise ValueError
+        return (_eval(T, inner[0]) + 1) % PRIME
+    isop = lambda x, role: isinstance(x, str) and any(r == role for r, _ in T.roles.get(x, []))
+    if len(t) == 2 and isop(t[0], "prefix") and not T.is_base(t[0]):
+        return (_h("pre" + t[0]) * _eval(T, t[1]) + 3) % PRIME
+    if len(t) >= 2 and all(isop(x, "postfix") for x in t[1:]):
+        v = _eval(T, t[0])
+        for op in t[1:]:
+            v = (v * v + _h("post" + op)) % PRIME
+        return v
+    if len(t) >= 3 and isop(t[1], "binary"):
+        k = [k for r, k in T.roles[t[1]] if r == "binary"][0]
+        kind, sets = T.levels[k - 1]
+        if len(t) % 2 == 0 or (kind == "binr" and len(t) != 3):
+            raise ValueError
+        v = _eval(T, t[0])
+        for i in range(1, len(t), 2):
+            if t[i] not in sets[0]:
+                raise ValueError
+            v = _bin(t[i], v, _eval(T, t[i + 1]))
+        return v
+    if len(t) >= 5 and isop(t[1], "ternary1"):
+        k = [k for r, k in T.roles[t[1]] if r == "ternary1"][0]
+        kind, sets = T.levels[k - 1]
+        if len(t) % 4 != 1 or (kind == "ternr" and len(t) != 5):
+            raise ValueError
+        v = _eval(T, t[0])
+        for i in range(1, len(t), 4):
+            if t[i] not in sets[0] or t[i + 2] not in sets[1]:
+                raise ValueError
+            v = (_h("t1" + t[i]) * v + _h("t2" + t[i + 2]) * _eval(T, t[i + 1]) ** 2 + _eval(T, t[i + 3]) ** 3) % PRIME
+        return v
+    jk = [kind for kind, _ in T.levels if kind in ("juxl", "juxr")]
+    if jk and len(t) >= 2 and not any(isinstance(x, str) and x in T.roles for x in t):
+        if jk[0] == "juxr" and len(t) != 2:
+            raise ValueError
+        v = _eval(T, t[0])
+        for x in t[1:]:
+            v = _bin("", v, _eval(T, x))
+        return v
+    raise ValueError
+
+
+# ---------------------------------------------------------------------------------------------------------------
+# generators
+# ---------------------------------------------------------------------------------------------------------------
+SYMBOL_POOL = ["+", "-", "*", "/", "%", "^", "&", "|", "~", "!", "<", ">", "=", "@", "#", "**", "//", "<<", ">>", "==", "!=", "<=", ">=",
+               "&&", "||", "++", "--", "<-", "->", "=>", "<=>", "<<=", "**=", "+=", "^^"]
+OVERLAP_SETS = [["*", "**"], ["<", "<="], ["!", "!="], ["+", "++"], ["-", "--"], ["<", "<-"], ["=", "=="], ["<", "<<", "<<="],
+                [">", ">>"], ["&", "&&"], ["|", "||"], ["/", "//"], ["<", "<=", "<=>"], ["*", "**", "**="], ["-", "->"], ["^", "^^"]]
+KEYWORDS = ["not", "and", "or", "xor", "in", "mod"]
+NONPREFIX_KINDS = ["postfix", "binl", "binr", "ternl", "ternr"]
+
+
+def rand_table(rng, max_levels=6, overlap=None):
+    """a random well-formed table spec"""
+    for _ in range(200):
+        spec = _rand_table(rng, max_levels, overlap)
+        if not Table(spec).problems():
+            return spec
+    return S([["binl", ["lit", "+"]]])
+
+
+def _rand_table(rng, max_levels, overlap):
+    nlev = rng.choice([1, 2, 2, 3, 3, 3, 4, 4, 5, 6][:4 + max_levels] if max_levels <= 6 else list(range(1, max_levels + 1)))
+    base = rng.choice(["int", "int", "var", "intvar"])
+    brackets = rng.choice([("(", ")")] * 4 + [("[", "]"), ("{", "}")])
+    lk, rk = rng.choice([("sup", "sup")] * 3 + [("lit", "lit"), ("lit", "sup"), ("sup", "lit")])
+    use_kw = base != "int" and rng.random() < 0.45
+    if overlap is None:
+        overlap = rng.random() < 0.5
+    pool = [s for s in SYMBOL_POOL if brackets[0] not in s and brackets[1] not in s]
+    if overlap:
+        pool = [s for grp in rng.sample(OVERLAP_SETS, 3) for s in grp] + rng.sample(pool, 4)
+    else:                                 # prefix-free selection
+        rng.shuffle(pool)
+        sel = []
+        for s in pool:
+            if not any(a.startswith(s) or s.startswith(a) for a in sel):
+                sel.append(s)
+        pool = sel
+    pool = list(dict.fromkeys(pool))
+    kws = list(KEYWORDS)
+    rng.shuffle(kws)
+    used_nonpre, used_pre = set(), set()
+    jux_at = rng.randrange(nlev) if (base != "intvar" and rng.random() < 0.15) else None
+
+    def pick(role_prefix):
+        used = used_pre if role_prefix else used_nonpre
+        if use_kw and kws and rng.random() < 0.5:
+            return ["kw", kws.pop()]
+        cands = [s for s in pool if s not in used and (jux_at is None or s not in (used_pre | used_nonpre))]
+        if not cands:
+            raise IndexError
+        s = rng.choice(cands)
+        used.add(s)
+        return ["lit", s]
+
+    def pick_mf():
+        k = rng.choice([2, 2, 3])
+        sp = []
+        for _ in range(k):
+            o = pick(False)
+            if o[0] == "kw":
+                kws.append(o[1])
+                continue
+            sp.append(o[1])
+        if len(sp) < 2:
+            return ["lit", sp[0]] if sp else pick(False)
+        sp.sort(key=lambda s: (-len(s), s))          # longer spellings first inside one MatchFirst
+        return ["mf"] + sp
+
+    levels = []
+    try:
+        for i in range(nlev):
+            if i == jux_at:
+                levels.append([rng.choice(["juxl", "juxr"])])
+                continue
+            kind = rng.choice(["prefix", "postfix", "binl", "binl", "binl", "binr", "binr", "ternl", "ternr"])
+            if kind == "prefix":
+                levels.append([kind, pick(True)])
+            elif kind in ("ternl", "ternr"):
+                levels.append([kind, pick(False), pick(False)])
+            elif kind in ("binl", "binr") and rng.random() < 0.3:
+                levels.append([kind, pick_mf()])
+            else:
+                levels.append([kind, pick(False)])
+    except IndexError:
+        return S([["binl", ["lit", "+"]], ["binl", ["lit", "+"]]])       # ill-formed on purpose: retried
+    return S(levels, base=base, lpar=(lk, brackets[0]), rpar=(rk, brackets[1]))
+
+
+def fixed_tables():
+    L = lambda s: ["lit", s]
+    K = lambda s: ["kw", s]
+    out = [
+        # four-function arithmetic, unary minus, right-associative ** (two placements of the unary minus)
+        S([["binr", L("**")], ["prefix", L("-")], ["binl", ["mf", "*", "/"]], ["binl", ["mf", "+", "-"]]]),
+        S([["prefix", L("-")], ["binr", L("**")], ["binl", ["mf", "*", "/"]], ["binl", ["mf", "+", "-"]]], base="intvar"),
+        S([["prefix", ["mf", "+", "-"]], ["binl", ["mf", "*", "/"]], ["binl", ["mf", "+", "-"]]], lpar=("lit", "("), rpar=("lit", ")")),
+        # boolean
+        S([["prefix", K("not")], ["binl", K("and")], ["binl", K("or")]], base="var"),
+        S([["prefix", K("not")], ["binr", K("and")], ["binr", K("or")], ["ternr", L("?"), L(":")]], base="intvar"),
+        # ternary
+        S([["binl", ["mf", "<=", "<"]], ["ternr", L("?"), L(":")]]),
+        S([["binl", L("+")], ["ternl", L("?"), L(":")]], base="var"),
+        S([["ternr", L("?"), L(":")], ["binl", L("+")]], lpar=("lit", "["), rpar=("sup", "]")),
+        # postfix / juxtaposition
+        S([["postfix", L("!")], ["juxl"], ["binl", L("+")]]),
+        S([["prefix", L("-")], ["juxr"], ["binr", L("^")]], base="var"),
+        S([["postfix", L("'")], ["prefix", L("~")], ["binl", L("&")], ["binl", L("|")], ["binr", L("=>")], ["ternr", L("?"), L(":")]], base="var"),
+        # overlapping spellings on different levels
+        S([["binl", L("*")], ["binl", L("**")]]),
+        S([["binl", L("**")], ["binl", L("*")]]),
+        S([["binr", L("**")], ["binl", L("*")], ["prefix", L("-")]]),
+        S([["binl", L("<")], ["binl", L("<=")]]),
+        S([["binl", L("<=")], ["binl", L("<")]]),
+        S([["postfix", L("!")], ["binl", L("!=")]]),
+        S([["binl", L("!=")], ["postfix", L("!")]]),
+        S([["postfix", L("+")], ["binl", L("++")]]),
+        S([["binl", L("++")], ["postfix", L("+")]]),
+        S([["postfix", L("++")], ["binl", L("+")]]),
+        S([["prefix", L("-")], ["binl", L("<")], ["binl", L("<-")]]),
+        S([["prefix", L("-")], ["binl", L("<-")], ["binl", L("<")]]),
+        S([["prefix", L("-")], ["prefix", L("--")], ["binl", L("-")]]),
+        S([["prefix", L("--")], ["prefix", L("-")], ["binl", L("+")]]),
+        S([["binl", L("-")], ["postfix", L("--")]]),
+        S([["ternr", L("?"), L(":")], ["binl", L("?:")]]),
+        S([["binl", L("?:")], ["ternl", L("?"), L(":")]]),
+        S([["prefix", L(":")], ["ternr", L("?"), L(":")], ["binl", L("::")]], base="var"),
+    ]
+    return out
+
+
+ATOMS_INT = ["0", "1", "2", "3", "7", "10", "42", "007"]
+
+
+def gen_expr(rng, T, size, pdepth):
+    """random well-formed expression of the table: returns (tree, tokens, cost).  size ~ number of operators wanted,
+    pdepth = remaining allowed nesting of parentheses; cost = estimate of the number of operand parses the generated
+    (unmemoized) parser performs: every level parses its operand once in the look-ahead and once more afterwards"""
+    def atom_tok():
+        if T.base == "int" or (T.base == "intvar" and rng.random() < 0.5):
+            return rng.choice(ATOMS_INT)
+        return rng.choice(VARS)
+
+    def split(n, parts):
+        cuts = [0] * parts
+        for _ in range(max(0, n)):
+            cuts[rng.randrange(parts)] += 1
+        return cuts
+
+    def atom(size, pd):
+        if pd > 0 and (size > 0 and rng.random() < 0.8 or rng.random() < 0.12):
+            x, toks, c = level(T.n, size, pd - 1)
+            toks = [T.lp] + toks + [T.rp]
+            if not T.lp_lit and not T.rp_lit:
+                return x, toks, c + 2
+            return ([T.lp] if T.lp_lit else []) + [x] + ([T.rp] if T.rp_lit else []), toks, c + 2
+        a = atom_tok()
+        return a, [a], 1
+
+    def level(k, size, pd):
+        if k == 0:
+            return atom(size, pd)
+        kind, sets = T.levels[k - 1]
+        # use this level's operator?
+        if size <= 0 or rng.random() < (0.45 if k > 1 else 0.25):
+            x, toks, c = level(k - 1, size, pd)
+            return x, toks, (c + 1 if kind == "prefix" else 2 * c + 1)
+        op = lambda i=0: rng.choice(sorted(sets[i]))
+        if kind == "prefix":
+            o = op()
+            y, ty, c = level(k, size - 1, pd)
+            return [o, y], [o] + ty, 2 * c + 1
+        if kind == "postfix":
+            cnt = rng.choice([1, 1, 2, 3])
+            x, tx, c = level(k - 1, size - cnt, pd)
+            ops = [op() for _ in range(cnt)]
+            return [x] + ops, tx + ops, 2 * c + 1
+        if kind in ("binl", "juxl"):
+            cnt = rng.choice([1, 1, 2, 3])
+            sizes = split(size - cnt, cnt + 1)
+            g, toks, cost = [], [], 0
+            for i, sz in enumerate(sizes):
+                if i and kind == "binl":
+                    o = op()
+                    g.append(o)
+                    toks.append(o)
+                x, tx, c = level(k - 1, sz, pd)
+                g.append(x)
+                toks += tx
+                cost += c * (2 if i < 2 else 1)
+            return g, toks, cost + 1
+        if kind in ("binr", "juxr"):
+            sa, sb = split(size - 1, 2)
+            x, tx, ca = level(k - 1, sa, pd)
+            y, ty, cb = level(k, sb, pd)
+            if kind == "juxr":
+                return [x, y], tx + ty, 2 * (ca + cb) + 1
+            o = op()
+            return [x, o, y], tx + [o] + ty, 2 * (ca + cb) + 1
+        if kind == "ternl":
+            cnt = rng.choice([1, 1, 2])
+            sizes = split(size - cnt, 2 * cnt + 1)
+            x, toks, cost = level(k - 1, sizes[0], pd)
+            cost *= 2
+            g = [x]
+            for i in range(cnt):
+                o1, o2 = op(0), op(1)
+                a, ta, ca = level(k - 1, sizes[2 * i + 1], pd)
+                b, tb, cb = level(k - 1, sizes[2 * i + 2], pd)
+                g += [o1, a, o2, b]
+                toks = toks + [o1] + ta + [o2] + tb
+                cost += (ca + cb) * (2 if i == 0 else 1)
+            return g, toks, cost + 1
+        if kind == "ternr":
+            s0, s1, s2 = split(size - 1, 3)
+            x, tx, c0 = level(k - 1, s0, pd)
+            o1, o2 = op(0), op(1)
+            a, ta, c1 = level(k, s1, pd)
+            b, tb, c2 = level(k, s2, pd)
+            return [x, o1, a, o2, b], tx + [o1] + ta + [o2] + tb, 2 * (c0 + c1 + c2) + 1
+        raise ValueError(kind)
+
+    return level(T.n, size, pdepth)
+
+
+SEPS = ["", "", "", " ", " ", " ", "  ", "\t", "\n", " \n ", "\r\n"]
+
+
+def render(rng, T, toks, style=None):
+    """token list -> string with random whitespace; the string tokenizes back to toks"""
+    style = style or rng.choice(["mixed", "mixed", "tight", "spaces"])
+    parts = []
+    for i, t in enumerate(toks):
+        if i:
+            sep = " " if style == "spaces" else ("" if style == "tight" else rng.choice(SEPS))
+            if sep == "" and T.tokenize(toks[i - 1] + t) != [toks[i - 1], t]:
+                sep = " "
+            parts.append(sep)
+        parts.append(t)
+    s = rng.choice(["", "", "", " ", "\n", "\t "]) + "".join(parts) + rng.choice(["", "", "", " ", "\n", " \t"])
+    if T.tokenize(s) != toks:
+        s = " ".join(toks)
+    return s
+
+
+def mutate(rng, T, toks, s):
+    """an (often ill-formed) variant of a well-formed string"""
+    alltoks = sorted(set(T.roles) | {T.lp, T.rp}) + ["1", "x" if T.base != "int" else "2"]
+    kind = rng.choice(["deltok", "duptok", "instok", "swaptok", "delchar", "dupchar", "inschar", "unbalance", "trailing", "joinws"])
+    toks = list(toks)
+    if kind == "deltok" and len(toks) > 1:
+        del toks[rng.randrange(len(toks))]
+        return render(rng, T, toks) if rng.random() < 0.7 else " ".join(toks)
+    if kind == "duptok":
+        i = rng.randrange(len(toks))
+        toks.insert(i, toks[i])
+        return " ".join(toks) if rng.random() < 0.6 else "".join(toks)
+    if kind == "instok":
+        toks.insert(rng.randrange(len(toks) + 1), rng.choice(alltoks))
+        return " ".join(toks) if rng.random() < 0.6 else "".join(toks)
+    if kind == "swaptok" and len(toks) > 1:
+        i = rng.randrange(len(toks) - 1)
+        toks[i], toks[i + 1] = toks[i + 1], toks[i]
+        return " ".join(toks)
+    if kind == "delchar" and len(s) > 1:
+        i = rng.randrange(len(s))
+        return s[:i] + s[i + 1:]
+    if kind == "dupchar" and s:
+        i = rng.randrange(len(s))
+        return s[:i] + s[i] + s[i:]
+    if kind == "inschar":
+        alphabet = sorted(set("".join(alltoks)) | set(" 1x"))
+        i = rng.randrange(len(s) + 1)
+        return s[:i] + rng.choice(alphabet) + s[i:]
+    if kind == "unbalance":
+        p = rng.choice([T.lp, T.rp])
+        i = rng.randrange(len(toks) + 1)
+        if rng.random() < 0.5 and p in toks:
+            toks.remove(p)
+        else:
+            toks.insert(i, p)
+        return " ".join(toks)
+    if kind == "trailing":
+        ops = sorted(T.roles) or ["+"]
+        return s + rng.choice(["", " "]) + rng.choice(ops)
+    # joinws: remove all whitespace (glues tokens: exercises overlapping spellings and keywords)
+    return "".join(c for c in s if c not in WS)
+
+
+COST_BUDGET = 600
+
+
+def gen_good(rng, T, budget=COST_BUDGET):
+    """one well-formed expression within the cost budget: (tree, tokens, cost)"""
+    best = None
+    for attempt in range(12):
+        size = rng.choice([0, 1, 2, 3, 3, 4, 5, 6, 8]) if T.n else rng.choice([0, 1])
+        if attempt >= 6:
+            size = min(size, 2)
+        tree, toks, cost = gen_expr(rng, T, size, rng.choice([0, 1, 2, 3]))
+        if cost <= budget and len(toks) <= 40:
+            return tree, toks, cost
+        if best is None or cost < best[2]:
+            best = (tree, toks, cost)
+    tree, toks, cost = gen_expr(rng, T, 0, 0)
+    return (tree, toks, cost) if cost <= best[2] else best
+
+
+def gen_inputs(rng, T, n_good, n_bad, budget=COST_BUDGET):
+    """[(string, generating tree | None)]"""
+    out, seen = [], set()
+    goods = []
+    for i in range(n_good):
+        tree, toks, cost = gen_good(rng, T, budget)
+        s = render(rng, T, toks)
+        goods.append((toks, s))
+        if s not in seen:
+            seen.add(s)
+            out.append((s, tree))
+    for i in range(n_bad):
+        toks, s = goods[rng.randrange(len(goods))]
+        m = mutate(rng, T, toks, s)
+        if m not in seen and len(m) <= 120:
+            seen.add(m)
+            out.append((m, None))
+    return out
+
+
+# ---------------------------------------------------------------------------------------------------------------
+# the checks
+# ---------------------------------------------------------------------------------------------------------------
+def canon_to_py(t):
+    if isinstance(t, tuple) and t[0] == "s":
+        return t[1]
+    if isinstance(t, tuple) and t[0] == "l":
+        return [canon_to_py(x) for x in t[1]]
+    if isinstance(t, tuple) and t[0] == "p":
+        return [canon_to_py(x) for x in t[1][1]]
+    return repr(t)
+
+
+def real_view(o):
+    """canonical implementation outcome -> ('ok', as_list) | ('fail', loc, msg) | ('div',) | ('other', class)"""
+    if o[0] == "ok":
+        return ("ok", [canon_to_py(views.as_list_tok(x)) for x in o[1][1]])
+    if o[0] == "err":
+        return ("fail", o[2], o[3]) if o[1] == "ParseException" else ("other", o[1])
+    return ("div",)
+
+
+def peg_of_real(o):
+    if o[0] == "ok":
+        return ("ok", views.as_list(o[1]))
+    if o[0] == "err":
+        return ("fail",) if o[1] == "ParseException" else ("other", o[1])
+    return ("div",)
+
+
+def peg_of_ref(res):
+    if res[0] == "ok":
+        return ("ok", [views.as_list_tok(t) for t in res[2]])
+    if res[0] == "fail":
+        return ("fail",)
+    return ("div",)
+
+
+def leaves(t):
+    if isinstance(t, str):
+        return [t]
+    out = []
+    for x in t:
+        out += leaves(x)
+    return out
+
+
+def spec_id(spec):
+    lv = ",".join(l[0] + "".join(":" + "/".join(o[1:]) if o[0] != "kw" else ":kw/" + o[1] for o in l[1:]) for l in spec["levels"])
+    return "%s[%s]%s%s%s%s" % (spec["base"], lv, spec["lpar"][0][0], spec["lpar"][1], spec["rpar"][0][0], spec["rpar"][1])
+
+
+ROLE_ORDER = ["postfix", "binary", "ternary1", "ternary2", "prefix"]
+
+
+FRESH = ["\u00a7", "\u00b6", "\u00a4", "\u00ac", "\u00b0", "\u00b1", "\u00d7", "\u00f7", "\u00a6", "\u00a9", "\u00ae", "\u00b5"]
+
+
+def rename_long(spec, inp, longs):
+    """the table and the input with the spelling(s) `longs` replaced by fresh, non-overlapping ones"""
+    T = Table(spec)
+    longs = [longs] if isinstance(longs, str) else list(longs)
+    fr = dict(zip(longs, FRESH))
+    ren = lambda o: [o[0]] + [fr.get(x, x) for x in o[1:]]
+    spec2 = dict(spec, levels=[[lv[0]] + [ren(o) for o in lv[1:]] for lv in spec["levels"]])
+    toks, _ = T.scan(inp)
+    out, last = [], 0
+    for t, a, b in toks:
+        out.append(inp[last:a])
+        out.append(fr.get(t, t))
+        last = b
+    out.append(inp[last:])
+    return spec2, "".join(out)
+
+
+def classify(T, inp, orc, rv, rv_prefix, cure=None):
+    """mechanism of a disagreement between the implementation and the token-level oracle when it is explained by
+    overlapping spellings: at the first token where the two readings part, the implementation has consumed the operator
+    `short` where the maximal-munch token is `long` (short a proper prefix of long).  When the implementation left no
+    partial result to align, `cure(long)` (re-run with `long` renamed to a fresh spelling; True when the disagreement
+    disappears) finds the pair.  Returns (class_key, description) or None.
+    rv = implementation under parse_all=True, rv_prefix = under parse_all=False (what the parser consumed)"""
+    ov = T.overlaps()
+    if not ov or rv[0] not in ("ok", "fail"):
+        return None
+    if orc[0] == "ok" and rv[0] != "ok":
+        beh = "rejects-valid"
+    elif orc[0] != "ok" and rv[0] == "ok":
+        beh = "accepts-invalid"
+    elif orc[0] == "ok":
+        beh = "misgroups"
+    else:
+        return None
+    toks = [t for t, _, _ in T.scan(inp)[0]]
+    got = rv if rv[0] == "ok" else rv_prefix
+    real_leaves = leaves(got[1]) if got[0] == "ok" else []
+    drop = set(([] if T.lp_lit else [T.lp]) + ([] if T.rp_lit else [T.rp]))
+    otoks = [t for t in toks if t not in drop]
+    short = long_ = idx = None
+    seen = []
+    for i, t in enumerate(otoks):
+        if i >= len(real_leaves):
+            break
+        if real_leaves[i] != t:
+            if (real_leaves[i], t) in ov:
+                short, long_, idx = real_leaves[i], t, i
+            break
+    if short is None and cure is not None:
+        for i, t in enumerate(otoks):
+            if t in seen or not any(b == t for a, b in ov):
+                continue
+            seen.append(t)
+            if cure(t):
+                long_, idx = t, i
+                short = max((a for a, b in ov if b == t), key=len)
+                break
+    if short is None and cure is not None and len(seen) >= 2 and cure(seen):
+        return ("overlap-class:several-overlapping-spellings",
+                "the table has several overlapping spellings (%s); with all of %s renamed the implementation and the oracle agree" % (
+                    ", ".join("%r<%r" % p for p in ov), seen))
+    if short is None:
+        return None
+    prev = otoks[idx - 1] if idx else None
+    after_operand = prev is not None and (T.is_base(prev) or prev == T.rp or
+                                          any(r == "postfix" for r, _ in T.roles.get(prev, [])))
+
+    def role_at(sp):
+        rls = T.roles.get(sp) or [("operand" if T.is_base(sp) else "paren", 0)]
+        pref = [rk for rk in rls if (rk[0] != "prefix") == after_operand]
+        return (pref or rls)[0]
+    (rs, ks), (rl, kl) = role_at(short), role_at(long_)
+    rel = "same-level" if ks == kl else ("looser" if kl > ks else "tighter")
+    key = ("overlap-class:operand-prefix-of-keyword-op:%s" % beh) if rs == "operand" else \
+        ("overlap-class:%s-op-prefix-of-longer-op:%s" % (rs, beh))
+    return key, "the implementation reads %r (%s%s) where the maximal-munch token is %r (%s operator of the %s level %d)" % (
+        short, rs, " operator of level %d" % ks if rs != "operand" else "", long_, rl, rel, kl)
+
+
+class TableRun:
+    def __init__(self, spec):
+        self.spec = spec
+        self.T = Table(spec)
+        self.real = Real(spec)
+
+
+def describe_rv(rv):
+    if rv[0] == "ok":
+        return "parses as %r" % (rv[1],)
+    if rv[0] == "fail":
+        return "raises ParseException at %s (%s)" % (rv[1], rv[2])
+    return "%s" % (rv,)
+
+
+def report_problems(ctx, tr, inp, res, ref_agrees=None, witness_key=None, shrink=False):
+    """turn the problems of one input into ctx.violation calls; returns the keys used"""
+    T = tr.T
+    keys = []
+    for p in res["problems"]:
+        if p[0] == "memo":
+            key = "memo:%s:%r:%r" % (spec_id(tr.spec), inp, p[1])
+            ctx.violation(key, "infix_notation table %s on %r: memoization %r changes the outcome: off=%r on=%r" % (
+                spec_id(tr.spec), inp, p[1], p[2], p[3]), {"kind": "memo", "spec": tr.spec, "input": inp, "mode": list(p[1])})
+            keys.append(key)
+            continue
+        rv, orc = p[1], p[2]
+        want = ("the tokenizing precedence parser gives %r (value %s)" % ([orc[1]], evaluate(T, orc[1]))) if orc[0] == "ok" else \
+            "the tokenizing precedence parser rejects it (%s)" % orc[1]
+        got = describe_rv(rv) + (" (value %s)" % evaluate(T, rv[1][0]) if rv[0] == "ok" and len(rv[1]) == 1 else "")
+        key = witness_key
+        extra = ""
+        if key is None:
+            def cure(long_, spec=tr.spec, inp=inp):
+                sp2, inp2 = rename_long(spec, inp, long_)
+                return not any(p[0] == "oracle" for p in check_input(TableRun(sp2), inp2, modes=MODES[:1])["problems"])
+            cl = classify(T, inp, orc, rv, real_view(res["prefix"]), cure) if rv[0] in ("ok", "fail") else None
+            if cl is not None and ref_agrees is not False:
+                key, extra = cl[0], " [" + cl[1] + "; the scannerless PEG reading of the table agrees with the implementation]"
+            else:
+                spec2, inp2 = tr.spec, inp
+                if shrink:
+                    beh = behaviour(res)
+
+                    def pred(sp, s):
+                        tr2 = TableRun(sp)
+                        r2 = check_input(tr2, s, modes=MODES[:1])
+                        if behaviour(r2) != beh:
+                            return False
+                        return classify(tr2.T, s, r2["oracle"], r2["rv"], real_view(r2["prefix"]), None) is None
+                    try:
+                        spec2, inp2 = shrink_case(tr.spec, inp, pred)
+                    except Exception:
+                        spec2, inp2 = tr.spec, inp
+                    if (spec2, inp2) != (tr.spec, inp):
+                        tr2 = TableRun(spec2)
+                        r2 = check_input(tr2, inp2, modes=MODES[:1])
+                        return keys + report_problems(ctx, tr2, inp2, r2, ref_agrees=False)
+                key = "oracle:%s:%r" % (spec_id(spec2), inp2)
+        ctx.violation(key, "infix_notation table %s on %r: implementation %s, %s%s" % (spec_id(tr.spec), inp, got, want, extra),
+                      {"kind": "oracle", "spec": tr.spec, "input": inp, "mode": ["none"]})
+        keys.append(key)
+    return keys
+
+
+# hand-written witnesses of the defects seen on the unchanged tree: (key, table, input); keys contain no whitespace
+def witnesses():
+    L = lambda s: ["lit", s]
+    K = lambda s: ["kw", s]
+    return [
+        ("overlap:postfix-prefix-of-looser-op:!|!=:1_!=_2", S([["postfix", L("!")], ["binl", L("!=")]]), "1 != 2"),
+        ("overlap:postfix-prefix-of-looser-op:!|!=:1!_!=_2", S([["postfix", L("!")], ["binl", L("!=")]]), "1! != 2"),
+        ("overlap:postfix-prefix-of-looser-op:+|++:1_++_2", S([["postfix", L("+")], ["binl", L("++")]]), "1 ++ 2"),
+        ("overlap:binary-prefix-of-looser-op-rest-is-prefix-op:-|<|<-:1_<-_2",
+         S([["prefix", L("-")], ["binl", L("<")], ["binl", L("<-")]]), "1 <- 2"),
+        ("overlap:postfix-prefix-of-tighter-op:++|+:3++", S([["binl", L("++")], ["postfix", L("+")]]), "3++"),
+        ("overlap:prefix-prefix-of-tighter-prefix-op:--|-:--1", S([["prefix", L("--")], ["prefix", L("-")], ["binl", L("+")]]), "--1"),
+        ("overlap:ternary-op2-prefix-of-looser-op:?|:|:::x?y::z", S([["prefix", L(":")], ["ternr", L("?"), L(":")], ["binl", L("::")]], base="var"), "x?y::z"),
+        ("overlap:operand-prefix-of-keyword-op:juxtaposition|xor:y_xor", S([["juxl"], ["postfix", K("xor")]], base="var"), "y xor"),
+    ]
+
+
+# ---------------------------------------------------------------------------------------------------------------
+# shrinking of a failing (table, input) towards a readable witness
+# ---------------------------------------------------------------------------------------------------------------
+def behaviour(res):
+    for p in res["problems"]:
+        if p[0] == "oracle":
+            rv, orc = p[1], p[2]
+            if rv[0] not in ("ok", "fail"):
+                return rv[0]
+            return "rejects-valid" if orc[0] == "ok" and rv[0] != "ok" else ("accepts-invalid" if orc[0] != "ok" else "misgroups")
+    return None
+
+
+def shrink_case(spec, inp, pred, budget=80):
+    """pred(spec, inp) -> bool (still failing the same way)"""
+    n = [0]
+
+    def ok(sp, s):
+        n[0] += 1
+        if n[0] > budget:
+            return False
+        try:
+            if Table(sp).problems():
+                return False
+            return pred(sp, s)
+        except Exception:
+            return False
+    changed = True
+    while changed and n[0] <= budget:
+        changed = False
+        for i in range(len(spec["levels"])):
+            cand = dict(spec, levels=spec["levels"][:i] + spec["levels"][i + 1:])
+            if ok(cand, inp):
+                spec, changed = cand, True
+                break
+        if changed:
+            continue
+        toks = Table(spec).tokenize(inp)
+        cands = []
+        if toks:
+            for i in range(len(toks)):
+                cands.append(" ".join(toks[:i] + toks[i + 1:]))
+            cands.append(" ".join(toks))
+        else:
+            cands = [inp[:i] + inp[i + 1:] for i in range(len(inp))]
+        for c in cands:
+            if c != inp and len(c) <= len(inp) and ok(spec, c) and (len(c) < len(inp) or c < inp):
+                inp, changed = c, True
+                break
+    return spec, inp
+
+
+# ---------------------------------------------------------------------------------------------------------------
+# correspond
+# ---------------------------------------------------------------------------------------------------------------
+def make_tables(ctx, rng, n_random, max_levels=6):
+    specs = fixed_tables() + [w[1] for w in witnesses()]
+    seen, out = set(), []
+    for sp in specs + [rand_table(rng, max_levels) for _ in range(n_random)]:
+        sid = spec_id(sp)
+        if sid in seen:
+            continue
+        seen.add(sid)
+        pr = Table(sp).problems()
+        if pr:
+            raise RuntimeError("ill-formed table %s: %s" % (sid, pr))
+        out.append(sp)
+    return out
+
+
+def build_runs(ctx, specs):
+    runs = []
+    for sp in specs:
+        try:
+            runs.append(TableRun(sp))
+        except dump.Unsupported as e:
+            ctx.broken("correspondence:dump of infix_notation(%s) unsupported: %s" % (spec_id(sp), e))
+        except RecursionError:
+            ctx.violation("construct:%s" % spec_id(sp), "infix_notation(%s) / streamline raises RecursionError" % spec_id(sp),
+                          {"kind": "construct", "spec": sp})
+        except Exception as e:
+            ctx.violation("construct:%s" % spec_id(sp), "infix_notation(%s) raises %s: %s" % (spec_id(sp), type(e).__name__, e),
+                          {"kind": "construct", "spec": sp})
+    return runs
+
+
+REAL_TIMEOUT = 4.0
+MAX_SHRUNK, MAX_REPORTED = 5, 40
+
+
+def check_input(tr, inp, modes=MODES):
+    """runs the implementation on one input in every mode; returns dict with the oracle, the real views, verdict"""
+    T, real = tr.T, tr.real
+    orc = oracle(T, inp)
+    outs = [observe.run_real(real.expr, real.dumper, inp, m, ("parse", True), timeout=REAL_TIMEOUT) for m in modes]
+    prefix = observe.run_real(real.expr, real.dumper, inp, ("none",), ("parse", False), timeout=REAL_TIMEOUT)
+    rv = real_view(outs[0])
+    problems = []
+    for m, o in zip(modes[1:], outs[1:]):
+        if corr.proj_all(o) != corr.proj_all(outs[0]):
+            problems.append(("memo", m, corr.proj_all(outs[0]), corr.proj_all(o)))
+    if orc[0] == "ok":
+        if rv != ("ok", [orc[1]]):
+            problems.append(("oracle", rv, orc))
+    else:
+        if rv[0] != "fail":
+            problems.append(("oracle", rv, orc))
+    return {"oracle": orc, "outs": outs, "prefix": prefix, "rv": rv, "problems": problems}
+
+
+def run_driver_for(runs, refs, plan):
+    """plan: [(ti, ii, inp)] ; returns {(ti, ii): {"parse": [outcome per mode], "peg": outcome, "pegref": outcome|None}}"""
+    lines = []
+    for ti, ii, inp in plan:
+        real = runs[ti].real
+        for mi, m in enumerate(MODES):
+            lines.append(observe.case_line("t%d_%d_m%d" % (ti, ii, mi), real.env_sx, real.root_sx, real.expr.keepTabs, inp, m, ("parse", True)))
+        lines.append(observe.case_line("t%d_%d_pg" % (ti, ii), real.env_sx, real.root_sx, real.expr.keepTabs, inp, ("none",), ("peg",)))
+        if refs is not None and refs[ti] is not None:
+            lines.append(observe.case_line("t%d_%d_pr" % (ti, ii), sx_text(refs[ti][1]), sx_text(refs[ti][0]), real.expr.keepTabs, inp,
+                                           ("none",), ("peg",)))
+    out = observe.run_model(lines)
+    res = {}
+    for ti, ii, inp in plan:
+        d = runs[ti].real.dumper
+        get = lambda suffix: (observe.outcome_from_model(out["t%d_%d_%s" % (ti, ii, suffix)], d)
+                              if "t%d_%d_%s" % (ti, ii, suffix) in out else ("missing",))
+        res[(ti, ii)] = {"parse": [get("m%d" % mi) for mi in range(len(MODES))], "peg": get("pg"),
+                         "pegref": get("pr") if refs is not None and refs[ti] is not None else None}
+    return res
+
+
+def run_tables(ctx, specs, n_good, n_bad, with_model=True, budget=COST_BUDGET):
+    """the whole check on a list of table specs; returns number of fresh (not known) violations reported"""
+    rng = ctx.rng
+    before = len(ctx.violations)
+    runs = build_runs(ctx, specs)
+    ctx.stat("tables", len(runs))
+    # (a) structure
+    refs = None
+    if with_model and runs:
+        try:
+            elabs, refs = [], []
+            CH = 120
+            for i in range(0, len(runs), CH):
+                e, r = elab_both([tr.real for tr in runs[i:i + CH]])
+                elabs += e
+                refs += r
+        except Exception as e:
+            ctx.broken("correspondence:infix_elab evaluation failed (%s: %s)" % (type(e).__name__, str(e)[-300:].replace("\n", " ")))
+            elabs = refs = None
+        if elabs is not None:
+            nbad = 0
+            for tr, el in zip(runs, elabs):
+                d = match_structure(el, dumped_grammar_sx(tr.real))
+                ctx.stat("structure_compared")
+                if d is not None:
+                    nbad += 1
+                    if nbad <= 3:
+                        ctx.broken("correspondence:infix_elab structure differs from the dumped infix_notation(%s): %s" % (spec_id(tr.spec), d[:300]))
+            ctx.stat("structure_mismatches", nbad)
+    # inputs + implementation
+    plan, cases = [], {}
+    for ti, tr in enumerate(runs):
+        for ii, (inp, tree) in enumerate(gen_inputs(rng, tr.T, n_good, n_bad, budget)):
+            res = check_input(tr, inp)
+            res["gen_tree"] = tree
+            if tree is not None and (res["oracle"][0] != "ok" or res["oracle"][1] != tree):
+                raise RuntimeError("generator and oracle disagree on table %s input %r: %r / %r" % (spec_id(tr.spec), inp, tree, res["oracle"]))
+            cases[(ti, ii)] = (inp, res)
+            plan.append((ti, ii, inp))
+    # (b), (b') model / reference readings
+    mres = run_driver_for(runs, refs, plan) if with_model else {}
+    nb = {"parse": 0, "peg": 0, "pegref": 0}
+    in_class = {}
+    for (ti, ii, inp) in plan:
+        tr = runs[ti]
+        inp, res = cases[(ti, ii)]
+        m = mres.get((ti, ii))
+        agreed = [True] * len(MODES)
+        ref_agrees = None
+        if m is not None:
+            for mi, mode in enumerate(MODES):
+                ctx.stat("model_parse_compared")
+                if corr.proj_all(m["parse"][mi]) != corr.proj_all(res["outs"][mi]):
+                    agreed[mi] = False
+                    nb["parse"] += 1
+                    if nb["parse"] <= 3:
+                        ctx.broken("correspondence:parse-outcome model!=impl table=%s input=%r mode=%r impl=%r model=%r" % (
+                            spec_id(tr.spec), inp, mode, corr.proj_all(res["outs"][mi]), corr.proj_all(m["parse"][mi])))
+            want_real = peg_of_real(res["prefix"])
+            pg = m["peg"]
+            if pg[0] == "peg":
+                in_class.setdefault(ti, (pg[1], pg[2]))
+                ctx.stat("peg_elab_compared")
+                if peg_of_ref(pg[3]) != want_real:
+                    nb["peg"] += 1
+                    if nb["peg"] <= 3:
+                        ctx.broken("correspondence:peg-reading of the dumped grammar != impl table=%s input=%r impl=%r peg=%r" % (
+                            spec_id(tr.spec), inp, want_real, peg_of_ref(pg[3])))
+            else:
+                ctx.broken("correspondence:peg entry failed on table %s: %r" % (spec_id(tr.spec), pg))
+            pr = m["pegref"]
+            if pr is not None:
+                if pr[0] == "peg":
+                    ctx.stat("peg_infix_ref_compared")
+                    ref_agrees = peg_of_ref(pr[3]) == want_real
+                    if not ref_agrees:
+                        nb["pegref"] += 1
+                        if nb["pegref"] <= 3:
+                            ctx.broken("correspondence:infix_ref reading (no look-aheads) != impl table=%s input=%r impl=%r infix_ref=%r" % (
+                                spec_id(tr.spec), inp, want_real, peg_of_ref(pr[3])))
+                else:
+                    ctx.broken("correspondence:peg entry failed on infix_ref of table %s: %r" % (spec_id(tr.spec), pr))
+        # (c) the property on the implementation
+        orc = res["oracle"]
+        nontriv = orc[0] == "ok" and (len(orc[2]["levels"]) >= 2 or orc[2]["ops"] >= 3)
+        for mi, mode in enumerate(MODES):
+            ctx.case(json.dumps([spec_id(tr.spec), inp, list(mode)]), nontriv, agreed[mi])
+        ctx.stat("oracle_" + ("accepts" if orc[0] == "ok" else "rejects"))
+        ctx.stat("impl_" + res["rv"][0])
+        if res["problems"]:
+            ctx.stat("impl_vs_oracle_disagreements")
+            fresh = len(ctx.violations) - before
+            if fresh < MAX_REPORTED:
+                report_problems(ctx, tr, inp, res, ref_agrees=ref_agrees, shrink=fresh < MAX_SHRUNK)
+            else:
+                ctx.stat("disagreements_not_reported_individually")
+    for k, v in nb.items():
+        ctx.stat("model_%s_disagreements" % k, v)
+    if with_model:
+        ctx.stat("tables_in_proved_class", sum(1 for v in in_class.values() if v[0]))
+        ctx.stat("tables_in_reference_class", sum(1 for v in in_class.values() if v[1]))
+        ctx.coverage_extra["tables_outside_proved_class"] = [spec_id(runs[ti].spec) for ti, v in sorted(in_class.items()) if not v[0]][:12]
+    return len(ctx.violations) - before, runs, cases
+
+
+def run_witnesses(ctx):
+    for key, spec, inp in witnesses():
+        tr = TableRun(spec)
+        res = check_input(tr, inp)
+        ctx.stat("witnesses_run")
+        if res["problems"]:
+            ctx.stat("witnesses_reproduced")
+            report_problems(ctx, tr, inp, res, witness_key=key)
+
+
+def correspond(ctx):
+    corr.ensure_driver()
+    rng = ctx.rng
+    n_random = 44 if not ctx.thorough else 400
+    specs = make_tables(ctx, rng, n_random)
+    ng, nb = (7, 7) if not ctx.thorough else (10, 10)
+    _, runs, cases = run_tables(ctx, specs, ng, nb, with_model=True)
+    run_witnesses(ctx)
+    shown = 0
+    for (ti, ii), (inp, res) in sorted(cases.items()):
+        if res["oracle"][0] == "ok" and res["rv"][0] == "ok" and len(res["oracle"][2]["levels"]) >= 2 and shown < 4 and ii == 1:
+            shown += 1
+            ctx.sample({"table": spec_id(runs[ti].spec), "input": inp, "impl": res["rv"][1], "value": evaluate(runs[ti].T, res["oracle"][1])})
+
+
+def search(ctx, reasons):
+    """widened search on the implementation only: other seeds, bigger tables, longer expressions"""
+    import random
+    for seed in range(1, 5 if not ctx.thorough else 25):
+        sub = vlib.Ctx(PROP, ctx.tier, ctx.seed * 1000 + seed)
+        sub.known = ctx.known
+        specs = make_tables(sub, sub.rng, 60, max_levels=6)
+        run_tables(sub, specs, 8, 8, with_model=False, budget=COST_BUDGET * 2)
+        ctx.stat("search_cases", sub.evaluations)
+        for v in sub.violations:
+            ctx.violation(v["key"], v["what"], v["replay"])
+        if sub.violations:
+            return
+
+
+def replay(ctx, obj):
+    r = obj["replay"]
+    if r.get("kind") in ("oracle", "memo"):
+        tr = TableRun(r["spec"])
+        res = check_input(tr, r["input"])
+        print("table         :", spec_id(r["spec"]))
+        print("input         :", repr(r["input"]))
+        print("implementation:", describe_rv(res["rv"]))
+        print("oracle        :", res["oracle"][:2])
+        for p in res["problems"]:
+            print("problem       :", p)
+        return not res["problems"]
+    if r.get("kind") == "construct":
+        try:
+            TableRun(r["spec"])
+            return True
+        except BaseException as e:
+            print("infix_notation(%s) raises %s" % (spec_id(r["spec"]), type(e).__name__))
+            return False
+    print("replay names a broken proof/correspondence obligation: %r" % (r,))
+    return False
